@@ -86,10 +86,28 @@ def formula(test, aliases):
     return conv(test)
 
 
-def refusals(func):
-    """-> list of {"msg", "guard"} for the reachable raises of an error"""
+def refusals(func, resolver=None, depth=0):
+    """-> list of {"msg", "guard"} for the reachable raises of an error.
+    `resolver(name)` gives the FunctionDef of a method of the same class:
+    the refusals of directly called helpers are included (one level), so
+    moving a check into a helper method does not look like removing it."""
     aliases = _aliases(func)
     out = []
+
+    def helper_calls(st):
+        if resolver is None or depth > 0:
+            return []
+        found = []
+        for call in ast.walk(st):
+            if isinstance(call, ast.Call) and isinstance(
+                    call.func, ast.Attribute) and isinstance(
+                        call.func.value, ast.Name) and \
+                    call.func.value.id in ("self", "cls") and \
+                    call.func.attr not in ("validate", "apply"):
+                sub = resolver(call.func.attr)
+                if sub is not None and sub is not func:
+                    found.append(sub)
+        return found
 
     def msg_of(node):
         for sub in ast.walk(node):
@@ -98,8 +116,27 @@ def refusals(func):
                 return " ".join(sub.value.split())[:60]
         return ""
 
+    def exits(block):
+        """does every way through `block` leave the enclosing block?"""
+        if not block:
+            return False
+        last = block[-1]
+        if isinstance(last, (ast.Return, ast.Continue, ast.Break,
+                             ast.Raise)):
+            return True
+        if isinstance(last, ast.If):
+            return exits(last.body) and exits(last.orelse)
+        return False
+
     def walk(stmts, guard):
+        guard = list(guard)
+        dead = False
         for st in stmts:
+            if dead:
+                break       # statements after an unconditional exit
+            if isinstance(st, (ast.Return, ast.Continue, ast.Break)):
+                dead = True
+                continue
             if isinstance(st, ast.If):
                 ct = const_test(st.test)
                 f = formula(st.test, aliases)
@@ -107,6 +144,14 @@ def refusals(func):
                     walk(st.body, guard + [f])
                 if ct is not True:
                     walk(st.orelse, guard + [("not", f)])
+                # what follows is only reached on the paths that fall
+                # through: an early `return` (accept) or `continue` added
+                # in front of a check weakens every later refusal
+                if ct is None:
+                    if exits(st.body) and not exits(st.orelse):
+                        guard.append(("not", f))
+                    elif exits(st.orelse) and not exits(st.body):
+                        guard.append(f)
             elif isinstance(st, (ast.For, ast.While)):
                 walk(st.body, guard)
                 walk(st.orelse, guard)
@@ -123,6 +168,14 @@ def refusals(func):
                     "Error" in ast.unparse(st.exc):
                 out.append({"msg": msg_of(st), "guard": list(guard),
                             "line": st.lineno})
+                dead = True
+            if not isinstance(st, (ast.If, ast.For, ast.While, ast.With,
+                                   ast.Try, ast.FunctionDef)):
+                for sub in helper_calls(st):
+                    for ref in refusals(sub, resolver, depth + 1):
+                        out.append({"msg": ref["msg"],
+                                    "guard": list(guard) + ref["guard"],
+                                    "line": st.lineno})
     walk(func.body, [])
     return out
 
@@ -164,33 +217,125 @@ def _interval(atom):
     return None
 
 
-def weaker_witness(old_guard, new_guard):
-    """valuation under which the reviewed guard refuses and the current one
-    does not, or None"""
-    old = ("and",) + tuple(old_guard) if old_guard else ("and",)
-    new = ("and",) + tuple(new_guard) if new_guard else ("and",)
-    atoms = sorted(atoms_of(old) | atoms_of(new))
-    if len(atoms) > 14:
-        return None     # too large to enumerate: not decided
-    # numeric atoms over the same expression are tied together
+def _conj(guard):
+    return ("and",) + tuple(guard) if guard else ("and",)
+
+
+def weaker_witness(old_guard, new_guards):
+    """valuation under which the reviewed refusal `old_guard` refuses and
+    *no* refusal of the current function does (the input is now accepted),
+    or None.  Only the current refusals that share atoms with the reviewed
+    one (transitively) take part; the others can be avoided independently."""
+    old = _conj(old_guard)
+    news = [_conj(g) for g in new_guards]
+    atoms = set(atoms_of(old))
+
+    def key_of(atom):
+        iv = _interval(atom)
+        return iv[0] if iv else atom
+    keys = {key_of(a) for a in atoms}
+    related = [n for n in news if not atoms_of(n)]
+    changed = True
+    while changed:
+        changed = False
+        for n in news:
+            if n in related:
+                continue
+            nk = {key_of(a) for a in atoms_of(n)}
+            if nk & keys:
+                related.append(n)
+                keys |= nk
+                atoms |= atoms_of(n)
+                changed = True
+    atoms = sorted(atoms)
+    if len(atoms) > 60:
+        return None     # not decided
     groups = {}
     for a in atoms:
         iv = _interval(a)
         if iv:
             groups.setdefault(iv[0], []).append((a, iv[1]))
-    tied = {a for lst in groups.values() if len(lst) > 1 for a, _ in lst}
-    free = [a for a in atoms if a not in tied]
-    tied_exprs = [e for e, lst in groups.items() if len(lst) > 1]
-    for bits in itertools.product([False, True], repeat=len(free)):
-        val = dict(zip(free, bits))
-        for nums in itertools.product(range(-3, 12),
-                                      repeat=len(tied_exprs)):
-            for expr, num in zip(tied_exprs, nums):
-                for a, sat in groups[expr]:
-                    val[a] = num in sat
-            if evaluate(old, val) and not evaluate(new, val):
-                return {k: v for k, v in val.items()}
-    return None
+    tied = {a: e for e, lst in groups.items() if len(lst) > 1
+            for a, _ in lst}
+    sat_of = {a: sat for lst in groups.values() for a, sat in lst}
+    # variables: free atoms (bool) and tied expressions (small ints);
+    # those of the reviewed guard first
+    order = []
+    for a in sorted(atoms_of(old)) + atoms:
+        var = ("n", tied[a]) if a in tied else ("b", a)
+        if var not in order:
+            order.append(var)
+
+    def ev3(f, val):
+        """three-valued evaluation: True / False / None (unknown)"""
+        if f[0] == "atom":
+            a = f[1]
+            if a in tied:
+                num = val.get(("n", tied[a]))
+                return None if num is None else num in sat_of[a]
+            return val.get(("b", a))
+        if f[0] == "not":
+            sub = ev3(f[1], val)
+            return None if sub is None else not sub
+        vals = [ev3(x, val) for x in f[1:]]
+        if f[0] == "and":
+            if any(v is False for v in vals):
+                return False
+            return None if any(v is None for v in vals) else True
+        if any(v is True for v in vals):
+            return True
+        return None if any(v is None for v in vals) else False
+
+    budget = [400000]
+
+    def var_of(atom):
+        return ("n", tied[atom]) if atom in tied else ("b", atom)
+
+    def pick(val):
+        """-> ('ok', None) when every constraint is decided and satisfied,
+        ('bad', None) when one is violated, else ('var', v) with an
+        unassigned variable of the first undecided constraint"""
+        o = ev3(old, val)
+        if o is False:
+            return "bad", None
+        undecided = old if o is None else None
+        for n in related:
+            r = ev3(n, val)
+            if r is True:
+                return "bad", None
+            if r is None and undecided is None:
+                undecided = n
+        if undecided is None:
+            return "ok", None
+        for atom in sorted(atoms_of(undecided)):
+            var = var_of(atom)
+            if var not in val:
+                return "var", var
+        return "bad", None
+
+    def search(_k, val):
+        budget[0] -= 1
+        if budget[0] < 0:
+            return None
+        state, var = pick(val)
+        if state == "bad":
+            return None
+        if state == "ok":
+            return dict(val)
+        domain = (False, True) if var[0] == "b" else range(-3, 12)
+        for choice in domain:
+            val[var] = choice
+            got = search(0, val)
+            if got is not None:
+                return got
+        del val[var]
+        return None
+    wit = search(0, {})
+    if wit is None:
+        return None
+    return {(v[1] if v[0] == "b" else f"{v[1]} = {c}"): c
+            for v, c in wit.items() if v[0] == "b" and v[1] in
+            atoms_of(old) or v[0] == "n"}
 
 
 def snapshot_of(idx, specs):
@@ -200,8 +345,14 @@ def snapshot_of(idx, specs):
         res = idx.find_method(cls, meth)
         if res is None:
             raise AnalysisError(f"{clsname}.{meth} not found")
+        owner = res[0]
+
+        def resolver(name, owner=owner):
+            got = idx.find_method(owner, name)
+            return got[1] if got else None
         snap[f"{clsname}.{meth}"] = [
-            {"msg": r["msg"], "guard": r["guard"]} for r in refusals(res[1])]
+            {"msg": r["msg"], "guard": r["guard"]}
+            for r in refusals(res[1], resolver)]
     return snap
 
 
@@ -228,31 +379,28 @@ def check_guards(idx, run, rule, specs):
         if res is None:
             raise AnalysisError(f"{key} not found")
         owner, func = res
-        cur = refusals(func)
-        used = set()
-        for pos, old in enumerate(snap[key]):
+        def resolver(name, owner=owner):
+            got = idx.find_method(owner, name)
+            return got[1] if got else None
+        cur = refusals(func, resolver)
+        new_guards = [c["guard"] for c in cur]
+        for old in snap[key]:
             total += 1
             old_guard = [_tuplify(g) for g in old["guard"]]
-            # match by message, then by position
-            cands = [k for k, c in enumerate(cur) if k not in used and
-                     c["msg"] == old["msg"] and old["msg"]]
-            if not cands:
-                cands = [k for k, c in enumerate(cur) if k not in used and
-                         k == pos]
-            if not cands:
-                continue    # removed refusals are the floor rule's subject
-            k = cands[0]
-            used.add(k)
-            wit = weaker_witness(old_guard, cur[k]["guard"])
+            wit = weaker_witness(old_guard, new_guards)
+            line = func.lineno
+            for c in cur:
+                if c["msg"] == old["msg"] and old["msg"]:
+                    line = c["line"]
+                    break
             run.check(
                 rule, wit is None, key,
-                f"refusal '{old['msg'][:50]}' is not weaker than reviewed",
-                f"the condition under which {key} refuses with "
-                f"'{old['msg'][:60]}' changed: under "
-                f"{ {a: v for a, v in (wit or {}).items()} } the reviewed "
-                f"version refused and the current one accepts",
-                loc(owner.module, func) if not cur else
-                f"{owner.module.relpath}:{cur[k]['line']}",
+                f"what '{old['msg'][:50]}' refused is still refused",
+                f"{key}: under { {a: v for a, v in (wit or {}).items()} } "
+                f"the reviewed version refused ('{old['msg'][:60]}') and "
+                f"the current one raises nothing: a validity check became "
+                f"weaker (or an early acceptance was added in front of it)",
+                f"{owner.module.relpath}:{line}",
                 sample={"rule": rule, "function": key,
                         "refusal": old["msg"][:60], "ok": wit is None})
     run.count("reviewed refusals compared", total)
